@@ -175,6 +175,14 @@ TABLES = {
 
 
 def table(name, frame=False):
+    if "@" in name:  # 'T_ship_gas@50': every 50th row (and the last one) of the base table - a coarse, legal table
+        base, k = name.split("@")
+        t = TABLES[base](frame=frame)
+        n = len(t["pressure"])
+        idx = np.unique(np.append(np.arange(0, n, int(k)), n - 1))
+        if frame:
+            return t.iloc[idx].reset_index(drop=True)
+        return {c: np.asarray(v)[idx].copy() for c, v in t.items()}
     return TABLES[name](frame=frame)
 
 
